@@ -24,7 +24,10 @@ RULE = ("tree sequences: msprime (2-8 samples, 1-60 trees, finite-sites mutation
         "mutations, multiple mergers, historical samples) with extra sites without mutations, mutations above "
         "roots and on isolated samples after deleting intervals; node ages: the tree sequence times, times "
         "written by tsdate.date (inside_outside / variational_gamma, mn metadata), or synthetic JSON metadata "
-        "with mn far from the node time (also on samples, and missing on one node); x node_selection in "
+        "with mn far from the node time (also on samples, and missing on one node); ~40% of the inputs with "
+        "gen.exotic decorations (extra flag bits, all nodes renumbered so that samples are not ids 0..n-1, "
+        "mutations above roots, mutation-free sites, unknown mutation times, arbitrary allele states, "
+        "populations); x node_selection in "
         "{child,parent,arithmetic,geometric} x min_time in {0, 1e-9, 1, 3.5, 1e6, -1, default} x unconstrained; "
         "non-trivial = at least one site with >= 1 mutation; distinct by content hash")
 ASSUME = ["tree.parent(node) at the site's position (tskit) supplies the parent of every mutation's node",
@@ -42,7 +45,14 @@ def base_ts(rng):
     for _ in range(30):
         ts = _base_ts(rng)
         if ts.num_mutations <= 150 and ts.num_nodes <= 80:
-            return ts
+            break
+    # gen.exotic on ~40% of the inputs: extra flag bits, all nodes renumbered, mutations above roots,
+    # mutation-free sites, unknown mutation times, arbitrary allele states, populations
+    if rng.random() < 0.4:
+        try:
+            ts, _kinds = gen.exotic(rng, ts, p=0.35)
+        except Exception:   # noqa: BLE001
+            pass
     return ts
 
 
@@ -84,11 +94,11 @@ def decorate(rng, ts):
     k_empty = rng.randint(0, 3)
     for x in free[:k_empty]:
         tables.sites.add_row(float(x), "0")
-    for x in free[k_empty:k_empty + rng.randint(0, 3)]:
+    for x in free[k_empty:k_empty + rng.randint(0, 4)]:
         s = tables.sites.add_row(float(x), "0")
         tree = ts.at(float(x))
         r = rng.random()
-        if r < 0.5 and tree.num_roots > 0:
+        if r < 0.6 and tree.num_roots > 0:
             node = rng.choice(list(tree.roots))
         else:
             node = rng.randrange(ts.num_nodes)       # any node, possibly isolated at x
@@ -459,9 +469,9 @@ def argument_checks(ctx):
 
 def run(ctx, model_ok=True):
     argument_checks(ctx)
-    run_sites_time(ctx, ctx.n(300, 1200), model_ok)
-    run_unconstrained(ctx, ctx.n(60, 200), model_ok)
-    run_sampledata(ctx, ctx.n(20, 80), model_ok)
+    run_sites_time(ctx, ctx.n(220, 1200), model_ok)
+    run_unconstrained(ctx, ctx.n(40, 200), model_ok)
+    run_sampledata(ctx, ctx.n(12, 80), model_ok)
 
 
 def search(ctx):
